@@ -12,6 +12,7 @@ XPath 1.0 implementation - part 3 (functions)
 """
 import math
 import decimal
+from fractions import Fraction
 from collections.abc import Iterator
 from typing import Any
 
@@ -185,6 +186,13 @@ def evaluate__name_related_functions(self: XPathFunction, context: ta.ContextTyp
         return AnyURI('') if not name or name[0] != '{' else AnyURI(name.split('}')[0][1:])
 
 
+def round_half_up(value: Any) -> int:
+    """Rounds a finite number to the nearest integer, with ties toward positive infinity."""
+    if not isinstance(value, (int, float, decimal.Decimal)):
+        raise TypeError("invalid type {!r} for a numeric argument".format(type(value)))
+    return math.floor(Fraction(value) + Fraction(1, 2))
+
+
 ###
 # String functions
 @method(function('string', nargs=(0, 1), sequence_types=('item()?', 'xs:string')))
@@ -295,34 +303,33 @@ def evaluate__substring(self: XPathFunction, context: ta.ContextType = None) -> 
     item: str = self.get_argument(context, default='', cls=str)
     try:
         start = self.get_argument(context, index=1, required=True)
-        if math.isnan(start) or math.isinf(start):
-            return ''
+        if isinstance(start, float) and (math.isnan(start) or math.isinf(start)):
+            # -INF precedes every position, but -INF + INF is NaN
+            return item if start < 0 and len(self) == 2 else ''
+        start = round_half_up(start) - 1
     except TypeError:
         if isinstance(context, XPathSchemaContext):
             start = 0
         else:
             raise self.error('FORG0006', "the second argument must be xs:numeric") from None
-    else:
-        start = int(round(start)) - 1
 
     if len(self) == 2:
         return item[max(start, 0):]
     else:
         try:
             length = self.get_argument(context, index=2, required=True)
-            if math.isnan(length) or length <= 0:
+            if isinstance(length, float) and math.isnan(length) or length <= 0:
                 return ''
+            elif isinstance(length, float) and math.isinf(length):
+                return item[max(start, 0):]
+            stop = start + round_half_up(length)
         except TypeError:
             if isinstance(context, XPathSchemaContext):
-                length = len(item)
+                stop = start + len(item)
             else:
                 raise self.error('FORG0006', "the third argument must be xs:numeric") from None
 
-        if math.isinf(length):
-            return item[max(start, 0):]
-        else:
-            stop = start + int(round(length))
-            return item[slice(max(start, 0), max(stop, 0))]
+        return item[slice(max(start, 0), max(stop, 0))]
 
 
 @method(function('substring-before', nargs=2,
